@@ -157,11 +157,12 @@ def _clear_loop():
     def inv(it, env):
         c = it.c
         d, q = _ld_parts(it, env['self'])
-        return [('tokens-nonneg', c.hget(q, 'qsize') >= 0), ('deque-empty', B.seq_len(it, d) == 0)]
+        return [('tokens-nonneg', c.hget(q, 'qsize') >= 0), ('deque-empty', B.seq_len(it, d) == 0),
+                ('every-token-unfinished', c.hget(q, 'unfinished') >= c.hget(q, 'qsize'))]
 
     def mods(it, env):
         d, q = _ld_parts(it, env['self'])
-        return [(q, 'qsize')]
+        return [(q, 'qsize'), (q, 'unfinished')]
 
     def var(it, env):
         d, q = _ld_parts(it, env['self'])
